@@ -422,6 +422,47 @@ def timezone_check(ctx, loop, model_ok):
     return problems, dis, len(zones)
 
 
+def custom_schema_defaults(loop):
+    from mysql_mimic.variables import GlobalVariables, SessionVariables
+    custom = dict(SYSTEM_VARIABLES)
+    changed = dict(character_set_client="latin1", character_set_connection="latin1", character_set_results="latin1",
+                   collation_connection="latin1_swedish_ci", sql_mode="TRADITIONAL", character_set_database="latin1", time_zone="+02:00")
+    for k, v in changed.items():
+        t, _d, dyn = custom[k]
+        custom[k] = (t, v, dyn)
+
+    class CS(Session):
+        async def query(self, expression, sql, attrs):
+            return [(1,)], ["c"]
+
+    n = 0
+    programs = [
+        (["SET NAMES big5", "SET NAMES DEFAULT"], ["character_set_client", "character_set_connection", "character_set_results", "collation_connection"]),
+        (["SET NAMES big5", "SET CHARACTER SET DEFAULT"], ["character_set_client", "character_set_results"]),
+        (["SET NAMES DEFAULT"], ["character_set_client", "character_set_connection", "character_set_results", "collation_connection"]),
+        (["SET sql_mode = 'ANSI'", "SET sql_mode = DEFAULT"], ["sql_mode"]),
+        (["SET time_zone = '+09:00'", "SET @@session.time_zone = DEFAULT"], ["time_zone"]),
+        (["SET character_set_results = 'big5', character_set_client = 'big5'", "SET character_set_results = DEFAULT, character_set_client = DEFAULT"],
+         ["character_set_results", "character_set_client"]),
+        (["SET NAMES big5 COLLATE big5_chinese_ci", "SET NAMES DEFAULT"], ["collation_connection", "character_set_connection"]),
+    ]
+    for stmts, names in programs:
+        sess = CS(SessionVariables(GlobalVariables(custom)))
+        try:
+            for q in stmts:
+                loop.run_until_complete(sess.handle_query(q, {}))
+            n += 1
+            got = {k: sess.variables.get(k) for k in names}
+            shown = dict(loop.run_until_complete(sess.handle_query("SHOW VARIABLES", {}))[0])
+        except Exception as e:  # noqa
+            return dict(program=stmts, problem="a statement failed on a session with a custom variable schema", error=repr(e)[:200]), n
+        want = {k: changed[k] for k in names}
+        if got != want or any(str(shown.get(k)) != str(want[k]) for k in names):
+            return dict(program=stmts, problem="DEFAULT did not restore this session's schema default", schema_defaults=want, read_back=got,
+                        show_variables={k: shown.get(k) for k in names}), n
+    return None, n
+
+
 def handshake_version(rng):
     """the version the handshake announces is the version variable"""
     env = impl.Env(own_sleep=False)
@@ -537,6 +578,13 @@ def run(ctx: core.Ctx):
         disagreements += tzd
         if tzp and witness is None:
             witness = dict(kind="time_zone", **tzp[0])
+        # ---- an application that brings its own variable schema (other defaults): DEFAULT is THIS session's default, in every
+        #      spelling - SET x = DEFAULT, SET NAMES DEFAULT, SET CHARACTER SET DEFAULT, SET_VAR(x = DEFAULT) - and SHOW VARIABLES
+        #      / @@x read it back
+        cw = custom_schema_defaults(loop)
+        ctx.evals += cw[1]
+        if cw[0] and witness is None:
+            witness = dict(kind="custom-schema-defaults", **cw[0])
         hs = handshake_version(rng)
         ctx.evals += 1
         announced = hs.get("version") if isinstance(hs, dict) else None
